@@ -105,6 +105,13 @@ fn bristol_text(c: &garble_lang::circuit::Circuit) -> String {
     let dir = format!("{}/tmp", std::env::var("CARGO_TARGET_DIR").unwrap_or_else(|_| "/verif/target".into()));
     let _ = std::fs::create_dir_all(&dir);
     let path = std::path::PathBuf::from(format!("{dir}/c06-{}-{:?}.txt", std::process::id(), std::thread::current().id()));
+    // history: the path already holds an older, longer export (two parties rarely start from the same directory
+    // state; the export must not depend on it)
+    // (every export of a process but its first; the first one finds no file)
+    static EXPORTS: std::sync::atomic::AtomicUsize = std::sync::atomic::AtomicUsize::new(0);
+    if EXPORTS.fetch_add(1, std::sync::atomic::Ordering::Relaxed) > 0 {
+        let _ = std::fs::write(&path, "2 3\n1 2\n1 1\n\n2 1 0 1 2 XOR\n".repeat(8 + 2 * c.gates.len()));
+    }
     let r = catch(|| c.format_as_bristol(&path));
     let out = match r {
         Ok(Ok(())) => std::fs::read_to_string(&path).unwrap_or_else(|e| format!("<unreadable: {e}>")),
